@@ -283,6 +283,51 @@ Section Exec.
           end
       end.
 
+    (* When collecting the sub-selection of an object fails (invalid @skip /
+       @include arguments: CoercionError), the exception leaves complete_value
+       and is caught by the resolve_field of the enclosing field: the field is
+       null, with one error at the field's path. Errors that completed list
+       items recorded before stay in _errors: [complete_value_partial]. The
+       error's node is the directive; its location is not tracked by
+       Exec/Collect.v, the model leaves the location list empty. *)
+    Fixpoint items_partial (f : path -> pv -> result) (fe : path -> pv -> list error)
+             (p : path) (i : N) (items : list pv) : list error :=
+      match items with
+      | [] => []
+      | x :: items' =>
+          match f (p ++ [PIdx i]) x with
+          | Ok r => snd r ++ items_partial f fe p (N.succ i) items'
+          | _ => fe (p ++ [PIdx i]) x
+          end
+      end.
+
+    Fixpoint complete_value_partial (nodes : list selection) (t : tref) (p : path) (v : pv) {struct t}
+      : list error :=
+      match t with
+      | RNonNull t' => complete_value_partial nodes t' p v
+      | RList t' =>
+          match v with
+          | PNone => []
+          | _ =>
+              match iter_items v with
+              | None => []
+              | Some items =>
+                  items_partial (complete_value nodes t') (complete_value_partial nodes t') p 0%N items
+              end
+          end
+      | RNamed _ => []
+      end.
+
+    (* try: complete_value(...) except (CoercionError, ResolverError) in resolve_field *)
+    Definition complete_field (nodes : list selection) (t : tref) (p : path) (v : pv) : result :=
+      match complete_value nodes t p v with
+      | Rejected k q =>
+          if Nat.eqb k REJ_COERCION
+          then Ok (PNone, complete_value_partial nodes t p v ++ [Err p [] ECoercion])
+          else Rejected k q
+      | o => o
+      end.
+
     (* BlockingExecutor.resolve_field *)
     Definition resolve_field (tname : str) (parent : pv) (k : fkind) (fd : fdef)
                (nodes : list selection) (p : path) : result :=
@@ -296,11 +341,11 @@ Section Exec.
           | Ok args =>
               match k with
               | FIntrospection => Crash CRASH_UNMODELLED
-              | FTypename => complete_value nodes (f_type fd) p (PStr tname)
+              | FTypename => complete_field nodes (f_type fd) p (PStr tname)
               | FUser =>
                   match world p parent tname (f_name fd) args with
-                  | RVal v => complete_value nodes (f_type fd) p v
-                  | RDefault => complete_value nodes (f_type fd) p (default_resolve parent (f_pyname fd))
+                  | RVal v => complete_field nodes (f_type fd) p v
+                  | RDefault => complete_field nodes (f_type fd) p (default_resolve parent (f_pyname fd))
                   | RErr m x => Ok (PNone, [Err p [sel_loc node] (EResolver m x)])
                   | RExn => Crash CRASH_RESOLVER
                   end
